@@ -18,6 +18,7 @@
    lists; proof creation with hash / seek / upgrade requests is not covered by a theorem. Both are covered on
    every run by tools/c09.py: boundary request tuples on six core shapes, structurally arbitrary proofs and the
    C04 alteration set, under catch_unwind + watchdog in a build with overflow checks, compared with the model. *)
+From HC Require Import Core SoundCoreLib SoundCore ReplicaCor ReplicaCorA.
 From HC Require Import Core NoPanic2.
 From HC Require Import Base NMap Codec CodecFacts Crypto FlatTree Storage Oplog Merkle NoPanic.
 
@@ -129,6 +130,84 @@ Theorem C09_verify_returns_for_lists_of_any_length :
          upgrade_nodes_lim pf -> own_roots_lim t -> returns (verify_proof cr t tf pf pk) = true.
 Proof. exact verify_proof_returns_any_length. Qed.
 
+Theorem C09_replica_trees_are_wellformed :
+  forall (cr : crypto) (bs : list bytes) (c : core) (d : disk),
+         RInv cr bs c d -> N.of_nat (Datatypes.length bs) < LIM -> sig_ok (c_tree c) -> tree_wf (c_tree c).
+Proof. exact RInv_tree_wf. Qed.
+
+Theorem C09_create_proof_returns_on_replicas :
+  forall (cr : crypto) (bs : list bytes) (c : core) (w : world) (block hash : option req_block)
+           (seek : option req_seek) (upgrade : option req_upgrade) (c' : core) (w' : world)
+           (r : res (option proof)),
+         RInv cr bs c (w_disk w) ->
+         N.of_nat (Datatypes.length bs) < LIM ->
+         sig_ok (c_tree c) ->
+         rblock_lim block = true ->
+         rblock_lim hash = true ->
+         rupgrade_lim upgrade = true ->
+         core_create_proof block hash seek upgrade c w = (c', w', r) ->
+         returns r = true /\ c' = c /\ w_disk w' = w_disk w /\ w_journal w' = w_journal w.
+Proof. exact replica_create_proof_returns. Qed.
+
+Theorem C09_create_proof_returns_after_replica_histories :
+  forall cr : crypto,
+         (forall x : bytes, Datatypes.length (cr_hash cr x) = 32%nat) ->
+         (forall x : bytes, all_zero (cr_hash cr x) = false) ->
+         forall bs : list bytes,
+         writer_fits bs ->
+         forall (ops : list EventsAvail.op) (c : core) (w : world) (c' : core) (w' : world) 
+           (oks : list bool) (block hash : option req_block) (seek : option req_seek)
+           (upgrade : option req_upgrade) (c2 : core) (w2 : world) (r : res (option proof)),
+         RInv cr bs c (w_disk w) ->
+         sig_ok (c_tree c) ->
+         kp_secret (c_keypair c) = None ->
+         N.of_nat (Datatypes.length bs) < LIM ->
+         Forall replica_op ops ->
+         EventsAvail.run_ops cr ops c w = (c', w', oks) ->
+         applies_ok ops oks ->
+         rblock_lim block = true ->
+         rblock_lim hash = true ->
+         rupgrade_lim upgrade = true ->
+         core_create_proof block hash seek upgrade c' w' = (c2, w2, r) ->
+         returns r = true /\ c2 = c' /\ w_disk w2 = w_disk w' /\ w_journal w2 = w_journal w' \/
+         Sound.some_collision cr \/ forged_signature cr bs (kp_public (c_keypair c)).
+Proof. exact replica_history_create_proof_returns. Qed.
+
+Theorem C09_apply_returns_on_replicas :
+  forall cr : crypto,
+         (forall x : bytes, Datatypes.length (cr_hash cr x) = 32%nat) ->
+         (forall x : bytes, all_zero (cr_hash cr x) = false) ->
+         forall bs : list bytes,
+         writer_fits bs ->
+         forall (f : option bool) (pf : proof) (c : core) (w : world) (c' : core) (w' : world) (r : res bool),
+         RInv cr bs c (w_disk w) ->
+         N.of_nat (Datatypes.length bs) < LIM ->
+         SoundCoreBU.block_upgrade_ok pf ->
+         block_lim (p_block pf) = true ->
+         upgrade_nodes_lim pf ->
+         announced_sizes_fit c pf ->
+         core_apply_proof cr f pf c w = (c', w', r) ->
+         returns r = true \/
+         r = Panic Refine.frame_msg \/
+         Sound.some_collision cr \/ forged_signature cr bs (kp_public (c_keypair c)).
+Proof. exact apply_replica_returns. Qed.
+
+Theorem C09_apply_outcome_classified :
+  forall cr : crypto,
+         (forall x : bytes, Datatypes.length (cr_hash cr x) = 32%nat) ->
+         (forall x : bytes, all_zero (cr_hash cr x) = false) ->
+         forall bs : list bytes,
+         writer_fits bs ->
+         forall (f : option bool) (pf : proof) (c : core) (w : world) (c' : core) (w' : world) (r : res bool),
+         RInv cr bs c (w_disk w) ->
+         SoundCoreBU.block_upgrade_ok pf ->
+         core_apply_proof cr f pf c w = (c', w', r) ->
+         r = Ok true /\ RInv cr bs c' (w_disk w') \/
+         c' = c /\ w' = w /\ unchanged_outcome cr pf c w r \/
+         r = Panic Refine.frame_msg \/
+         Sound.some_collision cr \/ forged_signature cr bs (kp_public (c_keypair c)).
+Proof. exact apply_replica_outcome. Qed.
+
 Print Assumptions C09_verify_returns_without_upgrade.
 Print Assumptions C09_verify_tree_returns.
 Print Assumptions C09_verify_never_panics.
@@ -152,3 +231,8 @@ Print Assumptions NoPanic2.create_classes_ok.
 Print Assumptions NoPanic2.create_boundary_returns.
 Print Assumptions NoPanic2.hostile_grow_ex.
 Print Assumptions NoPanic2.long_lists_ex.
+Print Assumptions C09_replica_trees_are_wellformed.
+Print Assumptions C09_create_proof_returns_on_replicas.
+Print Assumptions C09_create_proof_returns_after_replica_histories.
+Print Assumptions C09_apply_returns_on_replicas.
+Print Assumptions C09_apply_outcome_classified.
